@@ -1090,7 +1090,11 @@ func runAll(t *testing.T, work []Work) (results []*Result, crashes int) {
 				msg = msg[:i]
 				if k := strings.Index(rest, "github.com/attestantio/vouch/"); k >= 0 {
 					fr := rest[k:]
-					if e := strings.IndexAny(fr, "(\n"); e >= 0 {
+					if e := strings.Index(fr, "\n"); e >= 0 {
+						fr = fr[:e]
+					}
+					// drop the argument list: the last "(" that does not open a receiver type
+					if e := strings.LastIndex(fr, "("); e >= 0 && !strings.HasPrefix(fr[e:], "(*") {
 						fr = fr[:e]
 					}
 					msg += " in " + fr
